@@ -164,6 +164,7 @@ type muxModel struct {
 	seq      int
 	depth    int
 	short    bool // the datagram of the current event is read with a buffer that is too small
+	closedH  []muxHandle // handles closed by the application earlier in the history (they keep reading)
 	problems []vtProblem
 	removed  map[int]bool // generations removed by ufrag earlier in the history
 	wroteTo  map[int]map[string]bool
@@ -348,6 +349,9 @@ func (mm *muxModel) Apply(ev string) {
 		h := mm.handles[k][0]
 		mm.handles[k] = mm.handles[k][1:]
 		_ = h.conn.Close()
+		if len(mm.closedH) < 4 {
+			mm.closedH = append(mm.closedH, h)
+		}
 		stillOpen := false
 		for _, o := range mm.handles[k] {
 			stillOpen = stillOpen || o.gen == h.gen
@@ -376,6 +380,12 @@ func (mm *muxModel) Apply(ev string) {
 // drain polls every open handle (a read with an expired deadline returns what is queued).
 func (mm *muxModel) drain() {
 	defer func() { mm.short = false }()
+	// handles closed earlier read first: they get an error and take nothing away from a sibling handle of their connection
+	for _, h := range mm.closedH {
+		if n, _, err := h.conn.ReadFrom(make([]byte, 2000)); err == nil {
+			mm.problem("", "a handle closed earlier (generation %d) still received a datagram of %d bytes", h.gen, n)
+		}
+	}
 	polled := map[int]bool{}
 	for _, k := range muxKeys {
 		for _, h := range mm.handles[k] {
@@ -459,6 +469,9 @@ func (mm *muxModel) Key() (string, []int) {
 	}
 	for g := range mm.removed {
 		ks = append(ks, fmt.Sprintf("rm:%d", g))
+	}
+	for _, h := range mm.closedH { // closed handles the application still holds (and reads from)
+		ks = append(ks, fmt.Sprintf("closed-handle:%d", h.gen))
 	}
 	// what each live connection has written to, and where to last: two histories that leave the mux's tables equal may
 	// still differ in what a connection remembers about its own writes (a per-connection shortcut would live there)
